@@ -140,6 +140,10 @@ def gen_select(rng, features, single=None):
             keys = [f'{rng.choice(aliases)}.{c}' for c in rng.sample(COLS, rng.randint(1, 2))]
         else:
             keys = rng.sample(tcols, rng.randint(1, len(tcols)))
+        if not grouped and not distinct and rng.random() < 0.25:
+            # a sort key can be any expression, not only a column
+            k0 = keys[0]
+            keys[0] = rng.choice([f'{k0} - {rng.choice(aliases)}.a', f'abs({k0} - 1)', f'coalesce({k0}, 1)', f'{k0} * {k0}'])
         sql += ' order by ' + ', '.join(k + rng.choice(['', '', ' desc', ' asc', ' nulls last', ' desc nulls first']) for k in keys)
     if 'limit' in features and rng.random() < 0.4:
         sql += f' limit {rng.randint(1, 3)}'
@@ -571,6 +575,11 @@ def run(tier, seed, replay=None):
         inputs = [(rp['sql'], rp.get('catalog', 'names'))] if 'sql' in rp else []
     else:
         inputs = [(s, c) for s in EDGE + systematic_edges() for c in ('names',)]
+        # one table of an api integration (int1 in the catalog 'api'): what is sent to it and what is left to the outer step
+        for ob in ('b - a', 'abs(a - 2), b', 'a * a desc, c', 'coalesce(b, 9) desc', 'b', 'c desc nulls last', 'a + b nulls first'):
+            for tail in ('limit 2', 'limit 1', 'limit 2 offset 1', ''):
+                inputs.append((f'select a, b, c from int1.t1 where a >= 0 order by {ob} {tail}'.rstrip(), 'api'))
+                inputs.append((f'select * from int1.u1 order by {ob} {tail}'.rstrip(), 'api'))
         n = 250 if tier == 'quick' else 4000
         for _ in range(n):
             inputs.append((gen_statement(rng, ALL_FEATURES), rng.choice(cats)[0]))
